@@ -508,10 +508,13 @@ impl Server {
                 continue;
             }
             
-            // Pop for this waiter; an empty list means the remaining waiters keep waiting
+            // Pop for this waiter; an empty list means the remaining waiters keep waiting, and so
+            // does a key that has meanwhile become a value of another type (the push that asked
+            // for this wake-up may be followed, in the same transaction, script or pipeline, by
+            // commands that empty the list and store something else under the name)
             let value = match waiter.op_type {
-                super::connection::BlockingOp::BLPop => self.storage.lpop(wakeup.db, &wakeup.key)?,
-                super::connection::BlockingOp::BRPop => self.storage.rpop(wakeup.db, &wakeup.key)?,
+                super::connection::BlockingOp::BLPop => self.storage.lpop(wakeup.db, &wakeup.key).unwrap_or(None),
+                super::connection::BlockingOp::BRPop => self.storage.rpop(wakeup.db, &wakeup.key).unwrap_or(None),
                 super::connection::BlockingOp::XReadBlock(_) => None,
             };
             
